@@ -133,11 +133,33 @@ def monitor_cases(rng, tier, stats):
     return cases
 
 
+def trace_cases(res, rng, tier):
+    """loop tie of amen_divide (see harness/looptie.py): the local matrix, right-hand side and the stored environments of the running division
+    are compared with the Lean kernels / folds on diag(a) (the operator of the division), in exact rationals on the floats of the run"""
+    from looptie import solve_loop_tie
+    runs = []
+    for c in range(3 if tier == "quick" else 24):
+        d = rng.choice([2, 3, 3, 4])
+        N = [rng.randint(1, 3) for _ in range(d)]
+        seed = rng.randrange(1 << 30)
+
+        def thunk(N=N, seed=seed, d=d):
+            tn.manual_seed(seed)
+            z = torchtt.randn(N, [1] + [2] * (d - 1) + [1])
+            y = (z * z + 1.0).round(1e-14)
+            x = torchtt.randn(N, [1] + [2] * (d - 1) + [1])
+            DV.amen_divide(y, x, nswp=3, eps=1e-8, max_full=10 ** 6, kickrank=2, verbose=False)
+        runs.append(("amen_divide/d%d" % d, thunk))
+    n = solve_loop_tie(res, "C13", rng, DV.amen_divide, "solution_now = tn.linalg.solve(B,rhs)", runs, "a", "b", True)
+    res.extra["division_loop_state_evaluations"] = n
+
+
 def run(res, rng, tier, known):
     from common import run_cases
     stats = []
     cases = kernel_cases(rng, tier) + monitor_cases(rng, tier, stats)
     run_cases(res, cases, known)
+    trace_cases(res, rng, tier)
     if stats:
         res.extra["contract_monitor_runs"] = len(stats)
         res.extra["contract_monitor_max_residual_over_tol"] = max(s[2] for s in stats)
